@@ -21,7 +21,7 @@ CLAIMED = {
   'design_ref': 'DESIGN.md 3/C01', 'technique': _T,
   'note': _N + 'Bounds: <=4 entries, <=2 components, 2 faces. Composition (prediction + transform + entropy coding => values survive) is argued in DESIGN.md, not machine checked.'},
  'C02': {
-  'text': 'UB-instrumented bounded model checking (pointer/bounds/overflow/shift checks on every load, store and arithmetic instruction of the real code) of the parsing primitives on arbitrary bytes with symbolic length, from an arbitrary buffer position: DecoderBuffer Decode/Peek/bit mode, DecodeVarint all widths, rANS table parsing, bit decoders; decoder-side kernels for ANY int32 predictions/corrections (wrap and octahedron transforms, parallelogram predictors over an arbitrary table, kd-tree output iterator, kd-tree signed back-transformation on a real attribute). Found and, after the fixes, proves the absence of two signed-overflow defects. Edgebreaker traversal, kd-tree core and attribute controllers are outside the claim.',
+  'text': 'UB-instrumented bounded model checking (pointer/bounds/overflow/shift checks on every load, store and arithmetic instruction of the real code) of the parsing primitives on arbitrary bytes with symbolic length, from an arbitrary buffer position: DecoderBuffer Decode/Peek/bit mode, DecodeVarint all widths, rANS table parsing, bit decoders; decoder-side kernels for ANY int32 predictions/corrections (wrap and octahedron transforms, parallelogram predictors over an arbitrary table, kd-tree output iterator, kd-tree signed back-transformation on a real attribute). Found and, after the fixes, proves the absence of two signed-overflow defects; two further signed-overflow findings in the tex-coord and geometric-normal predictors (hostile position / UV values) are recorded as known findings (KNOWN-FINDING lines, exit 0). Edgebreaker traversal, kd-tree core and attribute controllers are outside the claim.',
   'design_ref': 'DESIGN.md 3/C02', 'technique': _T + '; non-speculating IR flavour with UB assertions',
   'note': _N + 'Bounds: 8..12 input bytes, recursion/loops unwound with unwinding assertions.'},
  'C03': {
